@@ -167,9 +167,16 @@ def gen_case(rng, n_ops):
         if c in conns.get(p, []):
             conns[p].remove(c)
             if not conns[p]:
+                was_open = [k for k, q in enumerate(sends) if q == p and phase[k] == "open"]
                 for k, q in enumerate(sends):
                     if q == p and phase[k] in ("opening", "open"):
                         phase[k] = "done"
+                # the responder's answer racing with the loss of the connection: it becomes readable only after the
+                # protocol has already failed the request
+                if was_open and rng.random() < 0.6:
+                    late_answers.append(rng.choice(was_open))
+
+    late_answers = []
 
     def respond(k):
         r = rng.random()
@@ -194,6 +201,8 @@ def gen_case(rng, n_ops):
     if rng.random() < 0.5:
         establish(focus[0])
     while len(ops) < n_ops:
+        while late_answers:
+            respond(late_answers.pop())
         blind = rng.random() < 0.2
         r = rng.random()
         if r < 0.20:
